@@ -89,7 +89,7 @@ theorem src_block_end_to_end {iv : Nat} (hiv : 1 ≤ iv) (hi : iv < 2 ^ 64) {es 
       Grenad.Block.parse wf.buffer = some b ∧ BlockOf iv es b ∧
       -- the block as `Block::read_from` leaves it, and every run of translated cursor moves over it
       let gb : Gen.Block := { compression_type := ct, buffer := wf.buffer, payload_size := b.payload.length, index_offsets := b.offsets }
-      toBlock gb = b ∧
+      toBlock gb = b ∧ OKBlock gb ∧
       ∀ (ms : List Mov) (rs : List (Option (Bytes × Bytes))) (c' : Gen.BlockCursor),
         (ms.foldlM (fun (s : Gen.BlockCursor × List (Option (Bytes × Bytes))) m => do
             let (r, c1) ← genMove m s.1
@@ -121,8 +121,6 @@ theorem src_block_end_to_end {iv : Nat} (hiv : 1 ≤ iv) (hi : iv < 2 ^ 64) {es 
         simp [BW.finish, List.append_assoc]
       show ({ payload := wf.buffer.take b.payload.length, offsets := b.offsets } : Grenad.Block) = b
       rw [hpre]
-    refine ⟨hgb, ?_⟩
-    intro ms rs c' hrun
     have hok : OKBlock gb := by
       constructor
       · show b.payload.length ≤ wf.buffer.length
@@ -138,6 +136,8 @@ theorem src_block_end_to_end {iv : Nat} (hiv : 1 ≤ iv) (hi : iv < 2 ^ 64) {es 
         simp [BW.finish, h8, be32, beN, leN, hb]
         rw [← e1]
         omega
+    refine ⟨hgb, hok, ?_⟩
+    intro ms rs c' hrun
     exact src_tblock_run ms { block := gb, current_offset := none } (LC.ofList es) hok (by rw [hgb]; exact hbo)
       (by
         have : toBC { block := gb, current_offset := none } = BlockCursor.ofBlock b := by
